@@ -267,7 +267,7 @@ def r07_5(ctx):
         raise AnchorError("_parse_replacements no longer returns (rep_dic, rev_rep_dic, inversions)")
     rep, rev, inv = [ast.unparse(e) for e in rets[0].value.elts]
     store = [n for n in ast.walk(f.node) if isinstance(n, ast.Assign) and isinstance(n.targets[0], ast.Subscript) and ast.unparse(n.targets[0].value) == rep]
-    app = [n for n in ast.walk(f.node) if isinstance(n, ast.Call) and isinstance(n.func, ast.Attribute) and n.func.attr == "append"
+    app = [n for n in ast.walk(f.node) if isinstance(n, ast.Call) and isinstance(n.func, ast.Attribute) and n.func.attr in ("append", "add")
            and isinstance(n.func.value, ast.Subscript) and ast.unparse(n.func.value.value) == rev]
     invapp = [n for n in ast.walk(f.node) if isinstance(n, ast.Call) and ast.unparse(n.func) == f"{inv}.append"]
     if not store or not app or not invapp:
@@ -298,7 +298,7 @@ def r07_5(ctx):
             msgs.append("the duplicate arm can skip the table update (continue/break/return)")
         if not any(isinstance(x, ast.Call) and ast.unparse(x.func) == f"{inv}.remove" and ast.unparse(x.args[0]) == old for x in ast.walk(d)):
             msgs.append("the old inversion flag of the alias is not removed")
-        rm = [x for x in ast.walk(d) if isinstance(x, ast.Call) and isinstance(x.func, ast.Attribute) and x.func.attr == "remove"
+        rm = [x for x in ast.walk(d) if isinstance(x, ast.Call) and isinstance(x.func, ast.Attribute) and x.func.attr in ("remove", "discard")
               and ast.unparse(x.func.value) != inv]
         if not rm or ast.unparse(rm[0].args[0]) != old:
             msgs.append("the alias is not removed from its previous target's list")
@@ -315,5 +315,50 @@ def r07_5(ctx):
         (ctx.bad(construct, "; ".join(msgs), f.loc(d)) if msgs else ctx.ok(construct, f.loc(d)))
 
 
+def r07_7(ctx):
+    """R07.7 aliases exist exactly where the option exists: every alias loop of an emitter is guarded by the presence test
+    of its replacement (config_string non-empty / _opt_defined) - otherwise one format lists aliases of options that are
+    absent from all other formats; the alias tables are ordered containers (output order must not depend on hashing)."""
+    repo = ctx.repo
+    n = 0
+    for q in ("kconfgen.core:write_cmake.<locals>.write_node", f"{DEP}:DeprecatedOptions.deprecated_config_contents",
+              f"{DEP}:DeprecatedOptions.deprecated_header_contents"):
+        f = repo.func(q)
+        ctx.analysed(q)
+        fl = Flow(f.node, resolver=Resolver(f.node)).run()
+        for lp in _alias_loops(repo, f):
+            n += 1
+            emits = [x for x in ast.walk(lp) if isinstance(x, ast.Call) and isinstance(x.func, ast.Attribute) and x.func.attr == "append"]
+            site = emits[0] if emits else lp
+            gs = fl.guards_at(site) or set()
+            ok = any(pol and ("config_string" in k or k.startswith("_opt_defined(") or "_opt_defined(" in k) for k, pol in gs)
+            construct = f"{f.short}/aliases emitted only for options that are present"
+            (ctx.ok(construct, f.loc(lp)) if ok else
+             ctx.bad(construct, f"the alias loop runs under {sorted(gs)} - no presence test of the replacement: aliases of an option hidden by unmet dependencies "
+                     "appear in this format only", f.loc(lp)))
+    if n < 3:
+        raise AnalysisError(f"only {n} alias loops in emitters")
+    pr = repo.func(f"{DEP}:DeprecatedOptions._parse_replacements")
+    construct = "DeprecatedOptions._parse_replacements/alias tables keep insertion order"
+    dd = [x for x in ast.walk(pr.node) if isinstance(x, ast.Call) and ast.unparse(x.func) == "defaultdict" and x.args]
+    unordered = [x for x in dd if ast.unparse(x.args[0]) in ("set", "frozenset")] + \
+        [x for x in ast.walk(pr.node) if isinstance(x, ast.Assign) and isinstance(x.value, (ast.Set, ast.SetComp)) ] + \
+        [x for x in ast.walk(pr.node) if isinstance(x, ast.Assign) and isinstance(x.value, ast.Call) and ast.unparse(x.value.func) == "set"]
+    (ctx.bad(construct, "an alias table is a set: the order of aliases in the generated files follows string hashing and changes from process to process "
+             "(unchanged configurations are rewritten)", pr.loc(unordered[0])) if unordered else ctx.ok(construct, pr.loc(), nontrivial=False))
+
+
+def r07_8(ctx):
+    """R07.8 JSON carries the same numbers as the other formats: int and hex values are parsed in the base they were
+    validated in (C06 R06.8c); hex is never merged with int under an auto-detected base."""
+    from . import c06
+    before = len(ctx.instances)
+    c06.r06_8(ctx)
+    keep = [i for i in ctx.instances[before:] if i.construct.startswith("get_json_values")]
+    dropped = {i.construct for i in ctx.instances[before:]} - {i.construct for i in keep}
+    ctx.instances[before:] = keep
+    ctx.findings[:] = [f for f in ctx.findings if not (f.rule == ctx._rule and f.construct in dropped)]
+
+
 def rules():
-    return [("R07.1", r07_1, 13), ("R07.6", r07_6, 8), ("R07.2", r07_2, 3), ("R07.3", r07_3, 4), ("R07.5", r07_5, 3)]
+    return [("R07.1", r07_1, 13), ("R07.6", r07_6, 8), ("R07.2", r07_2, 3), ("R07.3", r07_3, 4), ("R07.5", r07_5, 3), ("R07.7", r07_7, 4), ("R07.8", r07_8, 2)]
